@@ -63,7 +63,7 @@ def walk_query(rng, doc, g, max_seg=4, filters=False):
     return "".join(out)
 
 
-KIND_CHILDREN = [0, False, "", None, [], {}, 1, True, "a", 0.0, -1, [0], {"a": 0}]
+KIND_CHILDREN = [0, False, "", None, [], {}, 1, True, "a", 0.0, -1, [0], {"a": 0}, "hello", "ab"]
 
 
 def doc_with_all_kinds(rng, depth=3):
